@@ -214,7 +214,7 @@ func (o recObj) MarshalZerologObject(e *zerolog.Event) { *o.calls++ }
 // recErr is an error that is also an object marshaler: any use of it by a filtered event is observable
 type recErr struct{ calls *int }
 
-func (o recErr) Error() string                          { return "recErr" }
+func (o recErr) Error() string                         { return "recErr" }
 func (o recErr) MarshalZerologObject(e *zerolog.Event) { *o.calls++ }
 
 type recStringer struct{ calls *int }
@@ -234,7 +234,9 @@ func gateNil(out *rec) {
 	zerolog.ErrorMarshalFunc = func(err error) interface{} { calls++; return err }
 	zerolog.InterfaceMarshalFunc = func(v interface{}) ([]byte, error) { calls++; return []byte("null"), nil }
 	zerolog.ErrorStackMarshaler = func(err error) interface{} { calls++; return nil }
-	defer func() { zerolog.ErrorMarshalFunc, zerolog.InterfaceMarshalFunc, zerolog.ErrorStackMarshaler = oe, oi, os_ }()
+	defer func() {
+		zerolog.ErrorMarshalFunc, zerolog.InterfaceMarshalFunc, zerolog.ErrorStackMarshaler = oe, oi, os_
+	}()
 	lg := zerolog.New(w).Level(zerolog.Disabled).Hook(countHook{&calls})
 	ev := lg.Info()
 	rv := reflect.ValueOf(ev)
